@@ -152,7 +152,11 @@ def run_bind(c: dict) -> dict:
 
 
 def run_edge(c: dict) -> dict:
-    b0 = (JobBuilder().with_node("t1", TaskBuilder.from_callable(mkfunc([], c["ret"])))
+    t1 = TaskBuilder.from_callable(mkfunc([], c["ret"]))
+    if len(c.get("outs", [])) > 1:      # a hand-made producer: several outputs with the declared types the case lists
+        t1 = t1.model_copy(update={"definition": t1.definition.model_copy(
+            update={"output_schema": {str(i): t for i, t in enumerate(c["outs"])}})})
+    b0 = (JobBuilder().with_node("t1", t1)
           .with_node("t2", TaskBuilder.from_callable(mkfunc(c["params"], "", c.get("decor")))))
     first_before, j0 = build(b0)
     b = b0
@@ -210,7 +214,9 @@ def run(ctx):
                 f"positional; !Bind4: one parameter bound positionally / by keyword to None, 0, '', False, [], 0.0 and re-bound by a "
                 "second with_values call to each of them; !Bind5: one un-annotated parameter whose bound value (positional, "
                 "keyword) or default is structured - dataclass / pydantic / namedtuple instance, OrderedDict, defaultdict, "
-                "set, frozenset, tuple, bytes, nested list/dict - compared by type and value; !Edge3/!Bind3: callables that additionally have a positional-only parameter, *args (named "
+                "set, frozenset, tuple, bytes, nested list/dict - compared by type and value; !Edge4: two and three distinct edges fanning out of one producer (one int output, or hand-made with "
+                "outputs int/str, str/int) in every order, from a pool of well-formed edges and one edge per fault (unknown "
+                "output, incompatible type, unknown parameter, unknown sink task); !Edge3/!Bind3: callables that additionally have a positional-only parameter, *args (named "
                 "'args' or like the dangling edge name) and/or **kwargs, with keyword edges named like those; !Edge2: two edges (consumer <= {consts['MaxP2']} parameters); all enumerated by TLC; non-trivial = "
                 "binds a value or has an edge; TLC evaluates Builder!Post on every (case, dumps of the builders' results)",
         "clauses": ["build_raised_on_dangling_sink_task", "build_raised_on_other_dangling_edge", "build_raised_on_unannotated_source",
